@@ -29,7 +29,7 @@ for d in sorted(glob.glob(os.path.join(seed_dir, 'C*'))):
     pid = os.path.basename(d)
     if only and pid not in only:
         continue
-    for patch in sorted(glob.glob(os.path.join(d, 'patch[0-9]*.diff'))):
+    for patch in sorted(p for p in glob.glob(os.path.join(d, 'patch[0-9]*.diff')) if '_rebased' not in p):
         i = re.search(r'patch(\d+)\.diff', patch).group(1)
         if os.path.exists(os.path.join(d, f'patch{i}_rebased.diff')):      # the tree moved on: hand-made equivalent of the seeded change
             patch = os.path.join(d, f'patch{i}_rebased.diff')
